@@ -95,9 +95,9 @@ class RecIso:
 
 def h_isosteric_wiring(h, m):
     import pygaps.characterisation.isosteric_enth as ie
-    units = dict(loading_basis='molar', loading_unit='mmol', material_basis='mass', material_unit='g')
+    units = dict(loading_basis='molar', loading_unit='mmol', material_basis='mass', material_unit='g', pressure_mode='absolute', pressure_unit='bar')
     Ts = [h.real(f'T{j}', pos=True) for j in range(m)]
-    isos = [RecIso(h, j, Ts[j], dict(units, loading_unit='mmol' if j == 0 else 'mol', material_unit='g' if j == 0 else 'kg'))
+    isos = [RecIso(h, j, Ts[j], dict(units, loading_unit='mmol' if j == 0 else 'mol', material_unit='g' if j == 0 else 'kg', pressure_unit='bar' if j == 0 else 'kPa'))
             for j in range(m)]
     rec = {}
 
@@ -114,9 +114,9 @@ def h_isosteric_wiring(h, m):
     ok = True
     for j, iso in enumerate(isos):
         pa = [c for c in iso.calls if c[0] == 'pressure_at']
-        ok = ok and len(pa) == 1 and pa[0][2] == dict(branch='des', loading_unit='mmol', material_unit='g')
+        ok = ok and len(pa) == 1 and pa[0][2] == dict(branch='des', loading_unit='mmol', material_unit='g', pressure_mode='absolute', pressure_unit='bar')
         ok = ok and h.eq(pa[0][1][0], l0) & h.eq(pa[0][1][1], l1)
-    h.claim(f'{cid}/every-isotherm-asked-at-the-same-loadings-in-the-first-isotherms-units', ok)
+    h.claim(f'{cid}/every-isotherm-asked-at-the-same-loadings-in-the-first-isotherms-loading,material-and-pressure-units', ok)
     okt = len(rec['T']) == m
     for j in range(m):
         okt = okt and h.eq(rec['T'][j], Ts[j])
